@@ -159,7 +159,7 @@ func evalBin(op binOp, x, y fr.Element, alias int) error {
 	}
 	want := op.want(xv, yv)
 	var z fr.Element
-	z = hx.FrSetRaw(big.NewInt(0x5eed))
+	z = hx.FrSetRaw(new(big.Int).Sub(ref.R, big.NewInt(0x5eed))) // dirty receiver, every limb non-zero
 	xs, ys := x, y
 	var got fr.Element
 	perr := hx.Try(func() {
@@ -201,7 +201,7 @@ func evalUn(op unOp, x fr.Element, alias bool) error {
 			got = xs
 		} else {
 			var z fr.Element
-			z = hx.FrSetRaw(big.NewInt(0x5eed))
+			z = hx.FrSetRaw(new(big.Int).Sub(ref.R, big.NewInt(0x5eed))) // dirty receiver, every limb non-zero
 			op.impl(&z, &xs)
 			got = z
 			if xs != x {
@@ -278,7 +278,7 @@ func evalSqrtLegendre(x fr.Element) error {
 		return fmt.Errorf("Legendre(value %s) = %d, Jacobi symbol %d", xv.Text(16), got, wantL)
 	}
 	var z fr.Element
-	z = hx.FrSetRaw(big.NewInt(77))
+	z = hx.FrSetRaw(new(big.Int).Sub(ref.R, big.NewInt(77)))
 	res := z.Sqrt(&xs)
 	if (res == nil) != (wantL == -1) {
 		return fmt.Errorf("Sqrt(value %s): nil=%v but Jacobi symbol %d", xv.Text(16), res == nil, wantL)
